@@ -506,7 +506,10 @@ def rule_r3(ctx):
                 continue
             if f.name == "__init__":
                 adds = _calls_named(f, "_add_usage")
-                ok = any(isinstance(getattr(c, "_parent", None), ast.Expr) and _in_loop_over(c, "self._inputs") for c in adds)
+                # the stored tuple itself, or a local bound once to it (`own_inputs = self._inputs`)
+                srcs = ["self._inputs"] + [a.targets[0].id for a in own_nodes(f.node) if isinstance(a, ast.Assign) and len(a.targets) == 1
+                                           and isinstance(a.targets[0], ast.Name) and norm(a.value) == "self._inputs"]
+                ok = any(isinstance(getattr(c, "_parent", None), ast.Expr) and any(_in_loop_over(c, s_) for s_ in srcs) for c in adds)
                 ctx.check("R3", inst, ok, f, w.stmt,
                           "constructor stores inputs without registering a use on each of them",
                           how="_add_usage in a loop over self._inputs")
